@@ -83,12 +83,20 @@ func (w *World) finalProbes(snaps map[int]*Snap) {
 	// cross-node agreement: nodes holding the same vertex split answer identically (C06)
 	type key struct{ d string }
 	groups := map[string][]int{}
-	for idx, s := range snaps {
-		if s.Loaded && len(s.Leaves) == 1 {
+	// node order and group order are fixed: the queries below pass preemption points, whose
+	// effect must not depend on Go's map iteration order
+	for idx := 0; idx < len(w.Nodes); idx++ {
+		if s := snaps[idx]; s != nil && s.Loaded && len(s.Leaves) == 1 {
 			groups[vertexSetDigest(s)] = append(groups[vertexSetDigest(s)], idx)
 		}
 	}
-	for _, g := range groups {
+	var gkeys []string
+	for k := range groups {
+		gkeys = append(gkeys, k)
+	}
+	sortStrings(gkeys)
+	for _, gk := range gkeys {
+		g := groups[gk]
 		if len(g) < 2 {
 			continue
 		}
